@@ -165,6 +165,9 @@ def evaluate(cases, name='Cases'):
                 continue
             if not rec['same']:
                 f.append((f'render-nondeterministic:{tag}', f'{cfg}: two renderings differ', cfg))
+            if rec.get('opts_kept') is False:
+                f.append((f'render-nondeterministic:{tag}:per-call-option-sticks',
+                          f'{cfg}: an option passed for one call changed the writer\'s own options', cfg))
             if rec['empty']:
                 f.append((f'render-error:{tag}:empty', f'{cfg}: empty output', cfg))
             for clause, detail in rec.get('faithful', []):
